@@ -179,7 +179,7 @@ struct Conn
 	bool ok;
 	bool threaded;
 	// threaded = false: what the server writes must fit the socket buffer (a 100-continue line); it is read at the end
-	Conn(const std::string& stream, bool threaded_ = true) : srv(-1), peer(-1), dupfd(-1), ok(false), threaded(threaded_)
+	Conn(const std::string& stream, bool threaded_ = true, bool halfClose = true) : srv(-1), peer(-1), dupfd(-1), ok(false), threaded(threaded_)
 	{
 		int fd[2];
 		if (socketpair(AF_UNIX, SOCK_STREAM, 0, fd)) return;
@@ -201,7 +201,7 @@ struct Conn
 		}
 		fcntl(peer, F_SETFL, fl);
 		ok = off == stream.size();
-		shutdown(peer, SHUT_WR);
+		if (halfClose) shutdown(peer, SHUT_WR);
 		dupfd = dup(srv);
 		if (threaded) reader.start(peer);
 	}
@@ -324,6 +324,7 @@ static void removeFiles()
 static int g_tapFd = -1;          // a dup of the server-side descriptor of the connection under test
 static bool g_tapDone = false;
 static std::string g_tapRest;     // the bytes still unread on the connection at the hand-off
+static bool g_tapBlock = false;   // fragmented delivery: the rest of the stream is still on its way, read up to the peer's half-close
 
 static void tapNow()
 {
@@ -331,7 +332,7 @@ static void tapNow()
 	g_tapDone = true;
 	char buf[65536];
 	int fl = fcntl(g_tapFd, F_GETFL);
-	fcntl(g_tapFd, F_SETFL, fl | O_NONBLOCK);
+	fcntl(g_tapFd, F_SETFL, g_tapBlock ? (fl & ~O_NONBLOCK) : (fl | O_NONBLOCK));
 	for (;;)
 	{
 		ssize_t k = ::read(g_tapFd, buf, sizeof buf);
@@ -340,6 +341,26 @@ static void tapNow()
 	}
 	fcntl(g_tapFd, F_SETFL, fl);
 }
+
+// second segment of a fragmented delivery: sent 15 ms after the server started reading, then the write side is shut down
+struct LateWriter
+{
+	int fd; std::string rest; pthread_t th;
+	static void* run(void* a)
+	{
+		LateWriter* w = (LateWriter*)a;
+		usleep(15000);
+		size_t off = 0;
+		while (off < w->rest.size())
+		{
+			ssize_t n = ::send(w->fd, w->rest.data() + off, w->rest.size() - off, MSG_NOSIGNAL);
+			if (n <= 0) break;
+			off += (size_t)n;
+		}
+		shutdown(w->fd, SHUT_WR);
+		return 0;
+	}
+};
 
 struct WsTap : public WebSocketServer
 {
@@ -596,13 +617,20 @@ static std::string step(const Toks& t)
 		long long blen = he == std::string::npos ? -1 : (long long)(out.size() - he - 4);
 		return "status=" + str(code) + " cr=" + cr + " len=" + str(len) + " body=" + str(blen);
 	}
-	if (op == "upg" && t.size() == 3)
+	if ((op == "upg" && t.size() == 3) || (op == "upgf" && t.size() == 4))
 	{
 		// Upgrade hand-off: request head and first frame bytes arrive together; what is still unread on the connection
 		// when the WebSocket server takes over
 		if (!g_up) { g_up = new HttpServer(-1); g_upWs = new WsTap; g_up->link(*g_upWs); }
-		Conn p(unhex(t[1]) + unhex(t[2]));
+		// upgf: the same stream in two segments, cut at k mod (length + 1); the second one arrives while the server reads
+		std::string all = unhex(t[1]) + unhex(t[2]);
+		bool frag = op == "upgf";
+		size_t cut = frag ? (size_t)(atoll(t[3].c_str()) % (long long)(all.size() + 1)) : all.size();
+		Conn p(all.substr(0, cut), true, !frag);
 		if (!p.ok) return "stream-too-big";
+		LateWriter lw;
+		if (frag) { lw.fd = p.peer; lw.rest = all.substr(cut); pthread_create(&lw.th, 0, LateWriter::run, &lw); }
+		g_tapBlock = frag;
 		g_tapFd = p.dupfd; g_tapDone = false; g_tapRest.clear(); g_upWs->served = false;
 		std::string out;
 		{
@@ -612,6 +640,7 @@ static std::string step(const Toks& t)
 			// process() answering 400 (no `Connection: Upgrade`) returns at once: the connection is as it was handed over
 			if (!ws) tapNow();
 			c.close();
+			if (frag) pthread_join(lw.th, 0);
 			out = p.finish();
 			g_tapFd = -1;
 			if (ws || out.compare(0, 24, "HTTP/1.1 400 Bad request") == 0) return "ho=1 rest=" + brep(g_tapRest);
